@@ -65,6 +65,14 @@ def case_strategy(draw):
         free = free + [-1, -3]  # a negative value is a non-zero label of no group, too
     if free and draw(st.booleans()):
         und = {"label": draw(st.sampled_from(free)), "side": draw(st.sampled_from(["pred", "ref"])), "pos": [draw(st.integers(0, s - 1)) for s in ref.shape]}
+    # labels that belong to a group but cannot occur in the data (beyond the range of a narrow dtype): a legal
+    # configuration; they must not select anything
+    if np.iinfo(dtype).max <= 255 and draw(st.booleans()):
+        cands = [g for g in groups if g["kind"] in ("plain", "merge")]
+        if cands:
+            g = cands[draw(st.integers(0, len(cands) - 1))]
+            oth_labels = [l for h in groups if h is not g for l in h["labels"]] or [1]
+            g["labels"] = sorted(set(g["labels"]) | {256 + draw(st.sampled_from(oth_labels)), 512 + draw(st.sampled_from(oth_labels))})
     return {
         "pred": pred.tolist(), "ref": ref.tolist(), "dtype": dtype, "input": it,
         "backend": draw(st.sampled_from([None, "cc3d", "scipy"])) if it == "SEMANTIC" else None,
@@ -80,7 +88,7 @@ def searches(tier):
 
 
 def restrict(a, g):
-    out = np.where(np.isin(a, g["labels"]), a, 0).astype(a.dtype)
+    out = np.where(np.isin(a.astype(np.int64), g["labels"]), a, 0).astype(a.dtype)
     if g["kind"] in ("merge", "merge_single"):
         out = (out != 0).astype(a.dtype)
     return out
@@ -109,7 +117,7 @@ def check(case, stats):
     pred = np.array(case["pred"]).astype(case["dtype"])
     ref = np.array(case["ref"]).astype(case["dtype"])
     groups = case["groups"]
-    active = sum(1 for g in groups if np.isin(pred, g["labels"]).any() or np.isin(ref, g["labels"]).any())
+    active = sum(1 for g in groups if np.isin(pred.astype(np.int64), g["labels"]).any() or np.isin(ref.astype(np.int64), g["labels"]).any())
     kinds = sorted({g["kind"] for g in groups})
     stats.record(case, len(groups) >= 2 and active >= 2, [f"input={case['input']}", f"groups={len(groups)}", f"dtype={case['dtype']}"] + [f"kind={k}" for k in kinds])
     cfg = {**base_cfg(case), "groups": groups}
@@ -131,12 +139,12 @@ def check(case, stats):
             raise Violation(f"group {g['name']!r} ({g['kind']}, labels {g['labels']}): grouped result differs from the group-less evaluation of the restricted arrays: {msg}")
     # non-interference
     t = groups[case["target"]]
-    others = sorted(l for g in groups if g is not t for l in g["labels"])
+    others = sorted(l for g in groups if g is not t for l in g["labels"] if l <= np.iinfo(case["dtype"]).max)
     if others:
         op = _map_to_labels(np.array(case["other_pred"]), others).astype(case["dtype"])
         orf = _map_to_labels(np.array(case["other_ref"]), others).astype(case["dtype"])
-        pv = np.where(np.isin(pred, t["labels"]), pred, op).astype(case["dtype"])
-        rv = np.where(np.isin(ref, t["labels"]), ref, orf).astype(case["dtype"])
+        pv = np.where(np.isin(pred.astype(np.int64), t["labels"]), pred, op).astype(case["dtype"])
+        rv = np.where(np.isin(ref.astype(np.int64), t["labels"]), ref, orf).astype(case["dtype"])
         out2 = H.lib_call(lib.evaluator(cfg).evaluate, pv, rv)
         msg = meta.diff(obs[t["name"]], meta.observe(out2[t["name"].lower()][0]))
         if msg:
